@@ -627,7 +627,7 @@ class GraphBasedModelConstructor:
         novel_monoexon = set()
         clustered_polya_reads = self.cluster_monoexons(polya_reads)
         novel_monoexon.update(self.generate_monoexon_from_clustered(clustered_polya_reads, True))
-        clustered_polyt_reads = self.cluster_monoexons(polyt_reads)
+        clustered_polyt_reads = self.cluster_monoexons(polyt_reads, forward=False)
         novel_monoexon.update(self.generate_monoexon_from_clustered(clustered_polyt_reads, False))
 
     def generate_monoexon_from_clustered(self, clustered_reads, forward=True):
@@ -671,10 +671,11 @@ class GraphBasedModelConstructor:
                 self.save_assigned_read(read_assignment, new_model.transcript_id)
         return result
 
-    def cluster_monoexons(self, grouped_reads):
+    def cluster_monoexons(self, grouped_reads, forward=True):
         clustered_counts = defaultdict(list)
         while grouped_reads:
-            best_pair = max(grouped_reads.items(), key=lambda x:len(x[1]))
+            # equally supported positions: the outer one, whatever order the reads came in
+            best_pair = max(grouped_reads.items(), key=lambda x: (len(x[1]), x[0] if forward else -x[0]))
             top_position = best_pair[0]
             for pos in range(top_position - self.params.apa_delta, top_position + self.params.apa_delta + 1):
                 if pos in grouped_reads:
